@@ -16,7 +16,10 @@ LocalHosts == {"lhName", "lhUpper", "lo4", "lo4b", "lo6", "unspec4", "unspec6", 
                \* IPv4-mapped IPv6 spellings of loopback / unspecified (dialled as the IPv4 address, i.e. the proxy host itself)
                "mapped4hex", "mappedUnspec", "mappedUnspecHex", "mappedUnspecLong",
                \* a loopback literal with a zone (dialled as loopback) and the rooted form of the name
-               "lo6zone", "lhDot"}
+               "lo6zone", "lhDot",
+               \* spellings the transport maps to the name / the literal before it dials (UTS-46): full-width letters,
+               \* ideographic full stops
+               "lhWide", "lo4Ideo"}
 HostClasses == {"origin",      \* ordinary name, matches nothing
                 "denied",      \* matches a deny-domains include rule
                 "deniedUpper", \* the same domain spelt in upper case by the client: the same domain, denied as well
@@ -124,7 +127,7 @@ AccessCfgs == [tf : {"off", "in", "out"}, auth : BOOLEAN, lh : {"deny", "allow"}
 AccessReqs == [kind : AccessKinds, host : HostClasses \ {"direct", "directUpper", "directExcl"}, cred : CredClasses,
                via : {"none", "ownOnly"}, pos : Positions]
 AccessOK(c, r) ==
-  /\ (r.host \in {"lo6zone", "lhDot"} => r.kind \in {"GET", "GET10", "POST"})   \* written in a URL
+  /\ (r.host \in {"lo6zone", "lhDot", "lhWide", "lo4Ideo"} => r.kind \in {"GET", "GET10", "POST"})   \* written in a URL
   /\ (r.cred # "none" => c.auth)                 \* credentials only matter with auth on
   /\ (r.host \in {"denied", "deniedUpper", "denyExcl"} => c.deny)
   /\ (r.pos \in AfterRefused => (c.auth \/ c.deny \/ c.lh = "deny" \/ c.tf = "out"))
